@@ -275,7 +275,11 @@ PartTensor(P, C, cs, part) ==
           [] t.t = "cond" -> Knife(t.c, q) \/ Knife(t.a, q) \/ Knife(t.b, q)
           [] t.t \in {"sum", "prod"} -> \E k \in 1..Len(t.a) : Knife(t.a[k], q)
           [] t.t \in {"div", "max", "min"} -> Knife(t.a, q) \/ Knife(t.b, q)
-          [] t.t \in {"pow", "abs", "sqrt", "conj", "real", "imag"} -> Knife(t.a, q)
+          [] t.t = "abs" -> LET a == Ev(t.a, q, 0, 0)[1]
+                            IN (a[2][1] # 0 /\ ~RIsSquare(CAbs2(a))) \/ Knife(t.a, q)      \* |z| irrational
+          [] t.t = "sqrt" -> LET a == Ev(t.a, q, 0, 0)[1]
+                             IN a[2][1] # 0 \/ a[1][1] < 0 \/ ~RIsSquare(a[1]) \/ Knife(t.a, q)
+          [] t.t \in {"pow", "conj", "real", "imag"} -> Knife(t.a, q)
           [] OTHER -> FALSE
       \* which square roots must be rational for this case to be inside the model
       NeedsNormal == part.uses_normal
